@@ -877,6 +877,28 @@ static void io_yield_point()
     reschedule("file-io");
 }
 
+// The library is compiled with -finstrument-functions: entering any of its functions (including the Qt
+// container templates instantiated in it) can be a decision point.  This is the only way another thread gets
+// to run inside a window that contains no synchronisation call, no clock read and no I/O - e.g. between two
+// steps of an unsynchronised update of state that several pipelines share.  Off unless a plan asks for it.
+static uint64_t g_instr_calls = 0;
+static thread_local bool t_in_instr = false;
+extern "C" __attribute__((no_instrument_function, used)) void __cyg_profile_func_enter(void *, void *)
+{
+    if (!S || S->cfg.instr_yield_pp10k <= 0 || t_in_instr)
+        return;
+    if (!managed())
+        return;
+    uint64_t h = S->cfg.seed ^ (0x1257A11EDull + g_instr_calls++);
+    if ((int)(splitmix64(h) % 10000) >= S->cfg.instr_yield_pp10k)
+        return;
+    t_in_instr = true;
+    count(C_YIELD_INSTR);
+    reschedule("function-entry");
+    t_in_instr = false;
+}
+extern "C" __attribute__((no_instrument_function, used)) void __cyg_profile_func_exit(void *, void *) { }
+
 bool active()
 {
     return g_active;
